@@ -136,6 +136,55 @@ def show(n, depth=0):
     return '<%s>' % k
 
 
+def canonical_loops(n):
+    """`v = a; while (c) { ...; v++; }` (no `continue` in the body) is the same loop as `for (v = a; c; v++) { ... }`: the tree is rewritten
+    to the for form, so that every rule sees one loop shape whichever the source uses.  Done once when the facts are loaded."""
+    if isinstance(n, list):
+        for x in n:
+            canonical_loops(x)
+        return
+    if not isinstance(n, dict):
+        return
+    for k_, v in list(n.items()):
+        if isinstance(v, (dict, list)) and k_ != 'T':
+            canonical_loops(v)
+    if n.get('k') != 'CompoundStmt':
+        return
+    kids = n.get('c', [])
+    j = 0
+    while j + 1 < len(kids):
+        a, w = kids[j], kids[j + 1]
+        is_assign = isinstance(a, dict) and a.get('k') == 'BinaryOperator' and a.get('op') == '=' and strip_casts(a['c'][0]).get('k') == 'DeclRefExpr'
+        is_decl = isinstance(a, dict) and a.get('k') == 'DeclStmt' and len(a.get('decls', [])) == 1 and isinstance(a['decls'][0], dict) and \
+            a['decls'][0].get('init') is not None
+        if (is_assign or is_decl) and isinstance(w, dict) and w.get('k') == 'WhileStmt' and \
+                isinstance(w.get('body'), dict) and w['body'].get('k') == 'CompoundStmt' and w['body'].get('c'):
+            v = strip_casts(a['c'][0]).get('name') if is_assign else a['decls'][0].get('name')
+            last = w['body']['c'][-1]
+            l0 = strip_casts(last) if isinstance(last, dict) else {}
+            is_inc = (l0.get('k') == 'UnaryOperator' and l0.get('op') in ('++', 'post++', 'pre++') and strip_casts(l0['c'][0]).get('name') == v) or \
+                (l0.get('k') in ('CompoundAssignOperator', 'BinaryOperator') and l0.get('op') == '+=' and strip_casts(l0['c'][0]).get('name') == v)
+
+            def has_continue(x, top=True):
+                if isinstance(x, list):
+                    return any(has_continue(y, top) for y in x)
+                if not isinstance(x, dict):
+                    return False
+                if x.get('k') == 'ContinueStmt':
+                    return True
+                if x.get('k') in ('ForStmt', 'WhileStmt', 'DoStmt') and not top:
+                    return False
+                return any(has_continue(y, False) for k2, y in x.items() if isinstance(y, (dict, list)) and k2 != 'T')
+            uses_v = any(x.get('k') == 'DeclRefExpr' and x.get('name') == v for x in walk(w.get('cond') or {}))
+            if is_inc and uses_v and not has_continue(w['body']['c']):
+                body = dict(w['body'])
+                body['c'] = w['body']['c'][:-1]
+                kids[j:j + 2] = [{'k': 'ForStmt', 'ln': w.get('ln'), 'col': w.get('col'), 'init': a, 'cond': w.get('cond'), 'inc': last, 'body': body,
+                                  'from_while': True}]
+                continue
+        j += 1
+
+
 class Program:
     def __init__(self, facts):
         self.facts = facts
@@ -149,6 +198,12 @@ class Program:
                 f['unit'] = u['rel']
                 f['rel'] = self.rel(f['file'])
                 self._fn.setdefault(f['name'], []).append(f)
+                if f.get('body'):
+                    canonical_loops(f['body'])
+            for c_ in u.get('classes', []) or []:
+                for m in c_.get('functions', []):
+                    if m.get('body'):
+                        canonical_loops(m['body'])
         self._mv = {}
         for name, vs in self.macros.items():
             if all(not m['fl'] for m in vs):
